@@ -42,6 +42,7 @@ func (c16) Meta() fw.Meta {
 		},
 		Obligations: []string{"invocations", "success_effect_checked", "fault_reported", "textout_file_checked", "absent_series_invocations", "out_of_range_archive_reported", "diff_missing_side_exit1", "uid_dropped_runs"},
 		Workers:     12,
+		Level:       "fault_enumeration",
 	}
 }
 
